@@ -277,6 +277,85 @@ def random_sequences(res, rng, n_seq, max_n, max_len):
             res.sample({"n": n, "sequence": [[h[0][0], [list(x) for x in h[0][1]], h[1][0], [list(x) for x in h[1][1]], h[2]] for h in history[:5]]})
 
 
+def mixed_sequences(res, rng, n_seq, max_len):
+    """Link requests interleaved with the other things a project lives through: new modules (appended or filling an empty
+    position), empty positions, saving (object kept), saving + loading (continue on the loaded project).  Modules are
+    tracked by unique names so the edge model survives position changes and reloads."""
+    import rv.api as api
+    for s in range(n_seq):
+        p = api.Project()
+        names = {}          # name -> module object (current project)
+        edges = set()       # (name, name)
+        counter = [0]
+
+        def add_module(loading=False):
+            counter[0] += 1
+            nm = f"m{counter[0]}"
+            m = api.m.Amplifier(name=nm)
+            p.attach_module(m, loading=True) if loading else p.attach_module(m)
+            names[nm] = m
+            return nm
+        names["Output"] = p.output
+        for _ in range(rng.randint(2, 4)):
+            add_module()
+        history = []
+        for k in range(rng.randint(3, max_len)):
+            r = rng.random()
+            live = sorted(names)
+            if r < 0.55 and len(live) >= 2:
+                f = rng.sample(live, rng.randint(1, min(3, len(live))))
+                t = rng.sample(live, rng.randint(1, min(3, len(live))))
+                fm = [rng.random() < 0.25 for _ in f]
+                tm = [rng.random() < 0.25 for _ in t]
+                F = [~names[n] if mk else names[n] for n, mk in zip(f, fm)]
+                T = [~names[n] if mk else names[n] for n, mk in zip(t, tm)]
+                for n1, m1 in zip(f, fm):
+                    for n2, m2 in zip(t, tm):
+                        if m1 or m2:
+                            edges.discard((n1, n2))
+                        else:
+                            edges.add((n1, n2))
+                op = ("link", list(zip(f, fm)), list(zip(t, tm)))
+                form = rng.choice(("method", "rshift"))
+                try:
+                    if form == "rshift" and len(F) == 1 and not fm[0]:
+                        F[0] >> (T[0] if len(T) == 1 else T)
+                    else:
+                        p.connect(F[0] if len(F) == 1 and rng.random() < 0.5 else F, T[0] if len(T) == 1 and rng.random() < 0.5 else T)
+                except Exception as e:
+                    history.append(op)
+                    res.violation(f"C07:mixed:request-raised:{type(e).__name__}", f"legal request {op} raised {e!r} after {history[-8:]}", {"history": history})
+                    break
+            elif r < 0.68:
+                op = ("new_module", add_module())
+            elif r < 0.76:
+                p.attach_module(None)
+                op = ("empty_position",)
+            elif r < 0.86:
+                p.read()
+                op = ("save",)
+            else:
+                p = api.read_sunvox_file(__import__("io").BytesIO(p.read()))
+                names = {("Output" if m.index == 0 else m.name): m for m in p.modules if m is not None}
+                op = ("save_load",)
+            history.append(op)
+            res.count("ops_applied")
+            res.hist("mixed_ops", op[0])
+            res.case((s, k, op[0], len(edges)))
+            probs = monitors.links_consistent(p)
+            res.count("consistency_evaluations")
+            if probs:
+                res.violation(f"C07:mixed:inconsistent-after:{op[0]}", f"after {op} (history {history[-6:]}): {probs[:2]}", {"history": history})
+                break
+            by_index = {m.index: nm for nm, m in names.items()}
+            got = {(by_index[a], by_index[b]) for a, b in monitors.edge_multiset(p)}
+            if got != edges or len(monitors.edge_multiset(p)) != len(got):
+                res.violation(f"C07:mixed:edges-after:{op[0]}", f"after {op}: connections {sorted(got ^ edges)} differ from the requests (history {history[-6:]})", {"history": history})
+                break
+        if s == 0:
+            res.sample({"mixed_sequence": [list(map(str, h)) for h in history[:10]]})
+
+
 def plan(tier, seed):
     specs = []
     if tier == "quick":
@@ -285,6 +364,8 @@ def plan(tier, seed):
             specs.append({"tier": tier, "part": "bfs", "n": 3, "depth": 3, "slice": [i, k], "sample_last": 24, "seed": env.shard_seed(i)})
         for i in range(2):
             specs.append({"tier": tier, "part": "random", "n_seq": 1500, "max_n": 8, "max_len": 40, "seed": env.shard_seed(10 + i)})
+        for i in range(2):
+            specs.append({"tier": tier, "part": "mixed", "n_seq": 600, "max_len": 25, "seed": env.shard_seed(20 + i)})
     else:
         k = 16
         for i in range(k):
@@ -293,6 +374,8 @@ def plan(tier, seed):
             specs.append({"tier": tier, "part": "bfs", "n": 4, "depth": 2, "slice": [i, 8], "sample_last": None, "seed": env.shard_seed(100 + i)})
         for i in range(16):
             specs.append({"tier": tier, "part": "random", "n_seq": 20000, "max_n": 8, "max_len": 40, "seed": env.shard_seed(200 + i)})
+        for i in range(8):
+            specs.append({"tier": tier, "part": "mixed", "n_seq": 4000, "max_len": 40, "seed": env.shard_seed(300 + i)})
     return specs
 
 
@@ -302,6 +385,8 @@ def run_shard(spec_, res):
     if spec_["part"] == "bfs":
         res.exhaustive = True
         bfs(res, spec_["n"], spec_["depth"], tuple(spec_["slice"]), rng, spec_.get("sample_last"))
+    elif spec_["part"] == "mixed":
+        mixed_sequences(res, rng, spec_["n_seq"], spec_["max_len"])
     else:
         random_sequences(res, rng, spec_["n_seq"], spec_["max_n"], spec_["max_len"])
     if spec_["tier"] == "thorough" and spec_["part"] == "bfs" and spec_["n"] == 3 and spec_["slice"][0] == 0:
